@@ -426,49 +426,87 @@ func mtcpClientFull(r *report.Run, sent []sentBundle) bool {
 
 // mtcpClientBreak: j bundles, then the proxy resets the connection; once the kernel knows, Send must fail and report.
 func mtcpClientBreak(r *report.Run, sent []sentBundle, j int) bool {
+	ok, _ := mtcpClientBreakMode(r, sent, j, "reset", true)
+	return ok
+}
+
+// mtcpClientClosed: like mtcpClientBreak, but the peer closes the connection in the orderly way (FIN). The sender's
+// socket leaves ESTABLISHED (CLOSE_WAIT); the first write after that is still accepted by the kernel and answered with
+// a reset, so an implementation only notices within the same Send if it looks at the connection again after writing the
+// bundle. Whether the reset has been processed when it does is up to the kernel (on loopback it practically always
+// has): a Send that succeeds is therefore only a violation if it does so in three independent attempts.
+func mtcpClientClosed(r *report.Run, sent []sentBundle, j int) bool {
+	for attempt := 0; attempt < 3; attempt++ {
+		ok, apparent := mtcpClientBreakMode(r, sent, j, "close", attempt == 2)
+		if !ok {
+			return false
+		}
+		if !apparent {
+			return true
+		}
+		r.Count("mtcp.client.orderly_close.send_succeeded_once", 1)
+	}
+	return true
+}
+
+// mtcpClientBreakMode returns (rig worked, Send succeeded although the connection was broken). With report == false an
+// apparent violation is only returned, not recorded.
+func mtcpClientBreakMode(r *report.Run, sent []sentBundle, j int, mode string, reportIt bool) (bool, bool) {
+	ok, apparent := mtcpClientBreakInner(r, sent, j, mode, reportIt)
+	return ok, apparent
+}
+
+func mtcpClientBreakInner(r *report.Run, sent []sentBundle, j int, mode string, reportIt bool) (okRig bool, apparent bool) {
+	fail := func() (bool, bool) { return false, false }
+	_ = fail
 	g, err := newClientRig()
 	if err != nil {
 		giveUp(r, "mtcp-client-break: rig", err)
-		return false
+		return false, false
 	}
 	defer g.teardown()
 	for i := 0; i < j; i++ {
 		err, ok := send(g.client, sent[i].B)
 		if !ok {
 			giveUp(r, "mtcp-client-break: Send", errWatchdog)
-			return false
+			return false, false
 		}
 		if err != nil {
 			giveUp(r, "mtcp-client-break: Send failed before the break", err)
-			return false
+			return false, false
 		}
 	}
 	cport := g.px.clientPort()
 	// the kernel's view must be readable before it is relied upon: the socket is listed as ESTABLISHED now
 	if st, err := tcpState(cport, g.px.port); err != nil || st != "01" {
 		giveUp(r, "mtcp-client-break: the client's socket is not visible as ESTABLISHED in /proc/net/tcp before the reset", fmt.Errorf("state %q, %v", st, err))
-		return false
+		return false, false
 	}
-	g.px.resetClient()
+	if mode == "close" {
+		g.px.closeClientSide()
+	} else {
+		g.px.resetClient()
+	}
 	if err := waitNotEstablished(cport, g.px.port); err != nil {
 		giveUp(r, "mtcp-client-break: socket state", err)
-		return false
+		return false, false
 	}
 	if err := g.col.sync(); err != nil {
 		giveUp(r, "mtcp-client-break: sync", err)
-		return false
+		return false, false
 	}
 	before := countDisappeared(g.col.snapshot())
 	sendErr, ok := send(g.client, sent[j].B)
 	if !ok {
 		giveUp(r, "mtcp-client-break: Send after the break", errWatchdog)
-		return false
+		return false, false
 	}
 	if err := g.col.sync(); err != nil {
 		giveUp(r, "mtcp-client-break: sync", err)
-		return false
+		return false, false
 	}
 	reports := countDisappeared(g.col.snapshot())
+	r.Count("mtcp.client.breaks."+mode, 1)
 	r.Count("mtcp.client.breaks", 1)
 	r.Evals(1)
 	wit := map[string]interface{}{"bundles_before_break": j, "bundle_after_break": hx(sent[j].Bytes), "peer_disappeared_reports": reports,
@@ -477,27 +515,37 @@ func mtcpClientBreak(r *report.Run, sent []sentBundle, j int) bool {
 	if len(sent[j].Bytes) > 4096 {
 		cls = "large-bundle"
 	}
+	if mode == "close" {
+		cls += ":closed-by-peer"
+		wit["attempts"] = "the same happened in three independent attempts (fresh connections)"
+	}
 	if sendErr == nil {
-		r.Violation("c12.mtcp.client.send-succeeds-on-broken-connection:"+cls, "the connection had been reset and had left ESTABLISHED at the sender's kernel, yet Send returned nil", wit)
+		apparent = true
+		if reportIt {
+			r.Violation("c12.mtcp.client.send-succeeds-on-broken-connection:"+cls, "the connection had been broken ("+mode+") and had left ESTABLISHED at the sender's kernel, yet Send returned nil", wit)
+		}
 	} else {
 		r.Count("mtcp.client.send_errors_after_break", 1)
 	}
 	if reports == 0 {
-		r.Violation("c12.mtcp.client.no-peer-disappeared:"+cls, "Send on the reset connection did not report the peer as gone", wit)
+		apparent = true
+		if reportIt {
+			r.Violation("c12.mtcp.client.no-peer-disappeared:"+cls, "Send on the broken connection ("+mode+") did not report the peer as gone", wit)
+		}
 	} else {
 		r.Count("mtcp.client.peer_disappeared_reports", reports)
 	}
 	if err := g.closeClient(); err != nil {
 		giveUp(r, "mtcp-client-break: Close", err)
-		return false
+		return false, false
 	}
 	if err := waitClosed(g.px.srvDone); err != nil {
 		giveUp(r, "mtcp-client-break: server side did not finish", err)
-		return false
+		return false, false
 	}
 	if err := g.srv.col.sync(); err != nil {
 		giveUp(r, "mtcp-client-break: sync server channel", err)
-		return false
+		return false, false
 	}
 	got, _ := bundlesOf(g.srv.col.snapshot())
 	// what arrived is a prefix of what was sent before the break (bytes in flight may be lost with the reset)
@@ -514,7 +562,7 @@ func mtcpClientBreak(r *report.Run, sent []sentBundle, j int) bool {
 			"peer_disappeared_reports": reports, "bundles_at_server": len(got)})
 	}
 	judgeWire(r, g.px.recorded(), sent[:j], false)
-	return true
+	return true, apparent
 }
 
 func mtcpClientCase(r *report.Run, rng *report.Rand, breaks int) {
@@ -529,6 +577,13 @@ func mtcpClientCase(r *report.Run, rng *report.Rand, breaks int) {
 			return
 		}
 	}
+	// the peer closes in the orderly way; the next bundle is a small one (fits any write buffer) in two of three cases
+	j := rng.Intn(len(sent))
+	if rng.Intn(3) != 0 {
+		small := genMTCPBundles(rng, 1, 0)
+		sent = append(append([]sentBundle{}, sent[:j]...), small[0])
+	}
+	mtcpClientClosed(r, sent, j)
 }
 
 // mtcpTickerCase: the real client's own keep-alive ticker (5 s) fires on an idle connection; the frame is invisible.
